@@ -17,7 +17,7 @@ REPO = Path(os.environ.get("VERIF_REPO", "/repo"))
 CACHE = VERIF / ".cache"
 SPECS = VERIF / "specs"
 EVIDENCE = VERIF / "evidence"
-TARGET = CACHE / "target"
+TARGET = Path(os.environ.get("VERIF_TARGET", str(CACHE / "target")))   # override only for trying seeded changes in a scratch worktree
 TMP = CACHE / "tmp"
 REPLAYS = CACHE / "replays"
 GUARD = "wild_verif"
